@@ -112,6 +112,11 @@ func (db *DB) Merge() error {
 				if err != nil {
 					return err
 				}
+				// 重写文件的 id 不允许达到未参与 merge 的文件 id, 否则加载时会覆盖 merge 期间的新数据或被丢弃
+				// 放弃本次 merge, 未写入完成标识的临时目录会被忽略
+				if pos.Fid >= nonMergeFileId {
+					return ErrMergeOutputOverflow
+				}
 				// merge的过程中顺便将构建索引所需信息写入 Hint 文件中, 用于后续重启时加速构建索引
 				if err := hintFile.WriteHintRecord(logRecord.Key, db.hintPos, pos); err != nil {
 					return err
